@@ -568,6 +568,12 @@ func writeEvidence(ck *Check, ctx *Ctx, rep *Report, viol, knownN int, wall time
 	if knownN > 0 {
 		cov["known_findings_reported"] = knownN
 	}
+	if ck.Assumptions == nil {
+		ck.Assumptions = []string{}
+	}
+	if !strings.HasPrefix(ck.ID, "C") || len(ck.ID) != 3 {
+		return // auxiliary checks (SMOKE, ...) leave no evidence file
+	}
 	ev := map[string]interface{}{
 		"property_id": ck.ID,
 		"tier":        ctx.Tier,
